@@ -353,7 +353,10 @@ bool IncSolver::satisfy() {
             ofstream f(LOGFILE,ios::app);
             f<<s.str()<<endl;
 #endif
-            throw (char *) s.str().c_str();
+            // The message has to outlive this function.
+            static std::string message;
+            message = s.str();
+            throw (char *) message.c_str();
         }
     }
 #ifdef LIBVPSC_LOGGING
